@@ -90,12 +90,12 @@ def stacks_for(need, rng, n=40):
     """Stack grid: all-equal small values (aliasing), boundary values, mixed, random."""
     need = max(need, 0)
     st = []
-    for v in [0, 1, 32, 2 ** 255, 2 ** 256 - 1]:
+    for v in [0, 1, 32, 0x40, 0x60, 0x80, 0xa0, 2 ** 255, 2 ** 256 - 1]:
         st.append([v] * need)
     for _ in range(n):
         k = rng.random()
         if k < 0.4:
-            st.append([rng.choice([0, 1, 2, 31, 32, 33, 64, 96]) for _ in range(need)])
+            st.append([rng.choice([0, 1, 2, 0x10, 0x1f, 0x20, 0x21, 0x3f, 0x40, 0x41, 0x60, 0x80, 0xa0]) for _ in range(need)])
         elif k < 0.8:
             st.append([rng.choice(GRID) for _ in range(need)])
         else:
